@@ -485,6 +485,8 @@ const intPrelude = `
 
 const intPreludeQ = `
 (assert (forall ((a Int) (b Int)) (! (= (g_mul a b) (* a b)) :pattern ((g_mul a b)))))
+(assert (forall ((a Int) (b Int)) (! (=> (> b 0) (= (mod (g_mul a b) b) 0)) :pattern ((g_mul a b)))))
+(assert (forall ((a Int) (b Int)) (! (=> (> a 0) (= (mod (g_mul a b) a) 0)) :pattern ((g_mul a b)))))
 (assert (forall ((a Int) (b Int)) (! (=> (and (>= a 0) (>= b 0)) (and (<= 0 (g_band a b)) (<= (g_band a b) a) (<= (g_band a b) b))) :pattern ((g_band a b)))))
 (assert (forall ((a Int)) (! (= (g_band a a) a) :pattern ((g_band a a)))))
 (assert (forall ((a Int) (b Int)) (! (= (g_band a b) (g_band b a)) :pattern ((g_band a b)))))
